@@ -538,8 +538,7 @@ def isModify : ExecMsg → Bool
 
 /-- every key of `b` or `b'` outside `named` maps to the same value in both -/
 def frameBook {V : Type} [BEq V] (b b' : Book V) (named : List String) : Bool :=
-  (b.all fun kv => memS kv.1 named || b'.get? kv.1 == some kv.2) &&
-  (b'.all fun kv => memS kv.1 named || b.get? kv.1 == some kv.2)
+  (b.keys ++ b'.keys).all fun k => memS k named || b'.get? k == b.get? k
 
 def C11_frameOK (s : State) (m : ExecMsg) (s' : State) : Bool :=
   frameBook s.asks s'.asks (namedAsks m) && frameBook s.bids s'.bids (namedBids m) &&
